@@ -7,7 +7,9 @@ import common
 TOOLS = os.path.join(common.VERIF, 'tools', 'orch')
 SHIMS = os.path.join(common.VERIF, 'tools', 'shims')
 
-SHIMS_USED = ['tools/orch/robsd-wait (polling stand-in for the kqueue robsd-wait, contract from robsd-wait.c)',
+SHIMS_USED = ['tools/orch/robsd-wait (polling stand-in for the kqueue robsd-wait; its contract is READ OFF robsd-wait.c, of which no line is '
+              'executed or modelled: outside OpenBSD the program is the stub `int main(void) { return 0; }` - pinned by t_orch.py and run by the '
+              'robsd-wait lane of C04 so that a functional version appearing would be noticed)',
               'tools/shims/{logname,sendmail,chflags,stat,find,date,robsd-clean} (BSD userland / missing session stand-ins)',
               'bash in place of ksh; probe step commands gated by files; hook ROBSD_VERIF_NCPU']
 
@@ -16,7 +18,7 @@ class Canvas:
     """One canvas root with a configuration of probe steps.
     steps: list of dicts {name, parallel(bool), exit(int)}; skip: list of names; ncpu: int"""
 
-    def __init__(self, ctx, impl, work, steps, skip=(), ncpu=2, keep=0):
+    def __init__(self, ctx, impl, work, steps, skip=(), ncpu=2, keep=0, hook=None):
         self.ctx, self.impl, self.work = ctx, impl, work
         self.steps, self.skip, self.ncpu = steps, list(skip), ncpu
         self.root = os.path.join(work, 'root')
@@ -26,7 +28,7 @@ class Canvas:
             os.makedirs(d, exist_ok=True)
         self.conf = os.path.join(work, 'canvas.conf')
         lines = ['canvas-name "t"', 'canvas-dir "%s"' % self.root,
-                 'hook { "%s" "${step-name}" "${step-exit}" }' % os.path.join(TOOLS, 'hook')]
+                 'hook { "%s" "${step-name}" "${step-exit}" }' % (hook or os.path.join(TOOLS, 'hook'))]
         if self.skip:
             lines.append('skip { %s }' % ' '.join('"%s"' % s for s in self.skip))
         if keep:
@@ -47,9 +49,9 @@ class Canvas:
         e.pop('BUILDDIR', None)
         return e
 
-    def start(self, args):
+    def start(self, args, env=None):
         """start canvas in its own session; returns Popen"""
-        return subprocess.Popen(['bash', os.path.join(self.impl, 'canvas'), '-C', self.conf] + args, env=self.env(), cwd=self.work,
+        return subprocess.Popen(['bash', os.path.join(self.impl, 'canvas'), '-C', self.conf] + args, env=env or self.env(), cwd=self.work,
                                 stdout=subprocess.PIPE, stderr=subprocess.STDOUT, start_new_session=True)
 
     def trace(self):
@@ -62,6 +64,14 @@ class Canvas:
         p = os.path.join(self.orch, 'gate', name)
         open(p + '.tmp', 'w').write('%d\n' % code)
         os.rename(p + '.tmp', p)
+
+    def forget_trace(self):
+        """drop the probe trace and the hook log (between two invocations of one case)"""
+        for n in ('trace', 'hooklog'):
+            try:
+                os.unlink(os.path.join(self.orch, n))
+            except OSError:
+                pass
 
     def close_gates(self):
         g = os.path.join(self.orch, 'gate')
